@@ -264,7 +264,9 @@ def c33 (cfg : Cl.Cfg) (tr : List CE) (tEnd : Nat) : List Viol :=
     | _ => none
   let isUserRetry := fun (t : Nat) => userPings.any fun tc => t > tc && (t - tc) % cfg.rd == 0 && t - tc ≤ cfg.rc * cfg.rd
   let kaPings : List Nat := tr.filterMap fun e => match e with
-    | .out t (.sn b) => if pktOf b == some (.pingreq []) && !evT.contains t && !isUserRetry t then some t else none
+    -- (a PINGREQ at the instant of a Ping() call is the application's; one sent at the instant a late PINGRESP
+    -- arrives is the keep-alive's: the tick that fell into the outstanding exchange is served at once)
+    | .out t (.sn b) => if pktOf b == some (.pingreq []) && !userPings.contains t && !isUserRetry t then some t else none
     | _ => none
   -- an unanswered ping exchange ends the client: from then on nothing is due
   let pingresps : List Nat := (snIns tr).filterMap fun (t, p) => if p == .pingresp then some t else none
